@@ -141,6 +141,9 @@ type World struct {
 	AutoReplicate bool
 	// Workload: if set, this (writable) node commits one new transaction whenever any statement arrives anywhere
 	Workload string
+	// CallHook is called (world NOT locked) when a process is about to make an external call (statement or
+	// coordination operation); it may block: that is how a process is stopped between two calls.
+	CallHook func(caller, port string)
 	// OnStatement is called (world locked) before a statement is applied; used by monitors.
 	OnStatement func(w *World, n *Node, caller, kind, arg string)
 	// Severed callers: every statement from them is refused without effect (crash emulation)
@@ -210,6 +213,15 @@ func (w *World) KillLocked(n *Node) {
 	w.unblock.Broadcast()
 }
 
+// ConnCountLocked: established connections over all servers.
+func (w *World) ConnCountLocked() int {
+	c := 0
+	for _, n := range w.Nodes {
+		c += len(n.conns)
+	}
+	return c
+}
+
 // DropConnsLocked closes all established connections to n (network cut).
 func (w *World) DropConnsLocked(n *Node) {
 	for c := range n.conns {
@@ -227,6 +239,12 @@ func (w *World) Dial(ctx context.Context, addr string) (net.Conn, error) {
 	}
 	w.Mu.Lock()
 	caller := w.CallerOfPort[port]
+	hk := w.CallHook
+	w.Mu.Unlock()
+	if hk != nil {
+		hk(caller, port) // a stopped process does not even get to connect
+	}
+	w.Mu.Lock()
 	n, ok := w.Nodes[host]
 	refused := !ok || !n.Up || w.Severed[caller] || (w.Partition[caller] != nil && w.Partition[caller][host])
 	if refused {
@@ -240,7 +258,7 @@ func (w *World) Dial(ctx context.Context, addr string) (net.Conn, error) {
 	client, server := net.Pipe()
 	n.conns[server] = true
 	w.Mu.Unlock()
-	go w.serve(n, server, caller)
+	go w.serve(n, server, caller, port)
 	return client, nil
 }
 
@@ -308,10 +326,11 @@ func yesNo(b bool) string {
 type session struct {
 	lockWait time.Duration
 	dead     chan struct{}
+	port     string // the dialling process' port (one per process incarnation)
 }
 
-func (w *World) serve(n *Node, c net.Conn, caller string) {
-	sess := &session{lockWait: 365 * 24 * time.Hour, dead: make(chan struct{})} // MySQL default lock_wait_timeout
+func (w *World) serve(n *Node, c net.Conn, caller, port string) {
+	sess := &session{lockWait: 365 * 24 * time.Hour, dead: make(chan struct{}), port: port} // MySQL default lock_wait_timeout
 	pkts := make(chan []byte)
 	stop := make(chan struct{})
 	defer close(stop)
@@ -591,6 +610,9 @@ func (w *World) AckersLocked(m *Node) []string {
 func (w *World) query(n *Node, sess *session, caller, raw string) result {
 	q := strings.TrimSpace(spaceRe.ReplaceAllString(raw, " "))
 	kind, arg, mut := Classify(q)
+	if h := w.CallHook; h != nil && kind != "SLockWait" {
+		h(caller, sess.port)
+	}
 	w.Mu.Lock()
 	defer w.Mu.Unlock()
 	if !n.Up || w.Severed[caller] {
